@@ -260,7 +260,10 @@ def load_known(prop):
 
 def match_known(known, kernel, cls, site=None, config=None):
     for e in known:
-        if e.get("class") != cls:
+        if "class_re" in e:
+            if not re.search(e["class_re"], cls):
+                continue
+        elif e.get("class") != cls:
             continue
         if not re.search(e["site"], kernel):
             continue
